@@ -64,7 +64,10 @@ def correspondence(ctx):
         c.add("space.build " + head,
               C15.fmt_choices(space.choices_list) + " | unsolvable " + " ".join("%d-%d" % tuple(s) for s in space.unsolvable_segments),
               meta=dict(sequence=seq, constraints=descs), nontrivial=overlap,
-              branch="build:%s" % ("unsolvable" if space.unsolvable_segments else ("overlap" if overlap else "plain")))
+              branch="build:%s%s" % ("unsolvable" if space.unsolvable_segments else ("overlap" if overlap else "plain"),
+                                     # hypothesis of from_optimization_problem_exact (restrictions inside the sequence,
+                                     # non-empty segments, variants of the segment's length)
+                                     "" if all(a < b <= len(seq) and all(len(v) == b - a for v in vs) for a, b, vs in restrs) else ":outside-RestrOK"))
     c.run()
     hist = dict(c.hist)
     for k, v in skipped.items():
